@@ -13,7 +13,7 @@ import (
 
 func init() { Registry["C12"] = runC12 }
 
-const explanationC12 = "Decides the crash and acceptance shapes named by C12's anchors over every function of package dsl and the validators of package expr: (R12.1) every type assertion in dsl on the evaluation context, on `any` arguments or on data types is comma-ok, a type-switch arm, or dominated by a successful test of the same value; (R12.2) every constant index or slice of a variadic DSL argument list is covered by a dominating bound on its length; (R12.3) results of nil-returning lookups (Find, Attribute, View, Error, Service, UserType, …, computed as pointer/interface-returning functions of expr with an explicit `return nil`) are not dereferenced in dsl or in expr's Validate/Prepare code without a dominating nil test, and pointer variables that a function compares with nil are not dereferenced where no such test dominates; (R12.4) validators are wired and complete — unexported validate* helpers are called with their result consumed, validation results are never dropped, validation loops that record errors have no early exit, search flags set in an inner loop are reset in the enclosing loop (no stale found flag), and self-recursive walkers pass their recursion guard through every recursive call; (R12.5) the validator looks API keys up under the scheme-qualified tag the consumers use; (R12.6) it validates the requirements the finalizer will hand to the generators. NOT decided: termination and absence of all panics for all DSL programs (whole-program nil/bounds proof), semantic completeness of the validators."
+const explanationC12 = "Decides the crash and acceptance shapes named by C12's anchors over every function of package dsl and the validators of package expr: (R12.1) every type assertion in dsl on the evaluation context, on `any` arguments or on data types is comma-ok, a type-switch arm, or dominated by a successful test of the same value; (R12.2) every constant index or slice of a variadic DSL argument list is covered by a dominating bound on its length; (R12.3) results of nil-returning lookups (Find, Attribute, View, Error, Service, UserType, …, computed as pointer/interface-returning functions of expr with an explicit `return nil`) are not dereferenced in dsl or in expr's Validate/Prepare code without a dominating nil test, and pointer variables that a function compares with nil are not dereferenced where no such test dominates; (R12.4) validators are wired and complete — unexported validate* helpers are called with their result consumed, validation results are never dropped, validation loops that record errors have no early exit, search flags set in an inner loop are reset in the enclosing loop (no stale found flag), and self-recursive walkers pass their recursion guard through every recursive call; (R12.5) the validator looks API keys up under the scheme-qualified tag the consumers use; (R12.6) it validates the requirements the finalizer will hand to the generators. shared R06.3 (requirement inheritance in MethodExpr.Finalize: method, else service, else API). (R12.8) package dsl re-exports the names of package expr under their own names. NOT decided: termination and absence of all panics for all DSL programs (whole-program nil/bounds proof), semantic completeness of the validators."
 
 func runC12(c *an.Ctx) string {
 	r121Assertions(c)
@@ -22,6 +22,9 @@ func runC12(c *an.Ctx) string {
 	r124Validators(c)
 	r067InheritanceAgreement(c, "R12.6") // the validator checks the requirements the generators will use
 	r06SchemeKeyed(c, "R12.5")           // validator and consumers look API keys up under the same scheme-qualified key
+	r127LinkRecursion(c)
+	r063Inheritance(c) // shared with C06 (rule id R06.3): the finalizer must inherit the requirements the validator checked, or Finalize works on schemes the payload was never validated for
+	dslReexports(c, "R12.8")
 	return explanationC12
 }
 
@@ -662,4 +665,24 @@ func breakAfterRecording(info *types.Info, body *ast.BlockStmt, br *ast.BranchSt
 		return true
 	})
 	return ok
+}
+
+// r127LinkRecursion (R12.7): a recursive group of expr functions that steps from an expression to the one it names
+// (parent service, canonical endpoint …) must carry a visited set or a visited flag: the DSL lets those names
+// form a cycle, and an unguarded recursion then overflows the stack - a fatal error - instead of yielding a
+// located validation error.
+func r127LinkRecursion(c *an.Ctx) {
+	const rule = "R12.7"
+	groups, hits := c.LinkRecursions("expr")
+	for _, h := range hits {
+		var names []string
+		for _, f := range h.Funcs {
+			names = append(names, c.RefName(f))
+		}
+		c.Failf(rule, strings.Join(names, "↔")+"#link-recursion", h.Pos, "these functions call each other while following a reference the design gives by name (%s) and carry neither a visited set nor a visited flag: a design whose references form a cycle overflows the stack during evaluation instead of being rejected with an error", h.Via)
+	}
+	if len(hits) == 0 {
+		c.Okf(rule, "expr#link-recursion", "%d recursive groups in package expr; every one that follows a by-name reference carries a visited set or flag", groups)
+	}
+	c.Floor(rule, groups, 10, "recursive function groups in package expr")
 }
